@@ -215,6 +215,9 @@ impl<'a> Gen<'a> {
 #[derive(Clone, Debug, Default)]
 pub struct GuardState {
     pub must_sync: std::collections::BTreeMap<String, &'static str>,
+    /// torn writes replay every pending write of a path, so with a block size configured (C07) even a
+    /// truncating re-creation does not hide the removed file's unsynced writes
+    pub strict_remove: bool,
 }
 
 pub const KF_HANDLE: &str = "open-handle-across-rename-or-unlink";
@@ -266,6 +269,9 @@ pub fn guard_violation(m: &Model, gs: &GuardState, op: &FsOp) -> Option<&'static
             if from == to {
                 return None;
             }
+            if m.stale_paths.contains(to) || m.stale_paths.contains(from) {
+                return Some(KF_REMOVE);
+            }
             if has_open_handle(m, from) || has_open_handle(m, to) {
                 return Some(KF_HANDLE);
             }
@@ -280,13 +286,25 @@ pub fn guard_violation(m: &Model, gs: &GuardState, op: &FsOp) -> Option<&'static
             None
         }
         FsOp::RemoveFile { path, .. } => {
-            if m.is_file(path) {
-                if has_open_handle(m, path) {
-                    return Some(KF_HANDLE);
-                }
-                if !quiescent(m, path) {
-                    return Some(KF_REMOVE);
-                }
+            // removing a file with unsynced state is fine as long as the name is only re-used by a
+            // truncating create (tracked in `m.stale_paths`, see the Open / Rename arms)
+            if m.is_file(path) && has_open_handle(m, path) {
+                return Some(KF_HANDLE);
+            }
+            if gs.strict_remove && m.is_file(path) && !quiescent(m, path) {
+                return Some(KF_REMOVE);
+            }
+            None
+        }
+        FsOp::Open { path, truncate, write, create, create_new, .. } => {
+            if m.stale_paths.contains(path) && !m.exists(path) && (*create || *create_new) && !(*truncate && *write) {
+                return Some(KF_REMOVE);
+            }
+            None
+        }
+        FsOp::CreateDir { path, .. } | FsOp::CreateDirAll { path, .. } => {
+            if m.stale_paths.iter().any(|p| p == path || path.starts_with(&format!("{p}/"))) {
+                return Some(KF_REMOVE);
             }
             None
         }
